@@ -2313,6 +2313,10 @@ def chain_child(scope):
     # of tuples
     nxt_in_chain = scope[LAST_CHILD_SCOPE]
     nxt_in_chain.maps[0][NO_PYFRAME] = True
+    # the next link in the chain is evaluated in the mode of the spec
+    # that owns the chain, not in a mode the previous link switched to
+    nxt_in_chain.maps[0][MODE] = scope[MODE]
+    nxt_in_chain.maps[0][MIN_MODE] = scope[MIN_MODE]
     # previous failed branches are forgiven as the
     # scope is re-wired into a new stack
     del nxt_in_chain.maps[0][CHILD_ERRORS][:]
